@@ -654,7 +654,7 @@ func genRawBig(r *Rng, size int) string {
 	for i := 0; i < nl; i++ {
 		if i == at {
 			b.WriteString(longLine(r, size))
-		} else if r.Chance(1, 3) {
+		} else if size < 32768 && r.Chance(1, 3) {
 			b.WriteString(longLine(r, size+r.Intn(3)-1))
 		} else {
 			b.WriteString(rawPool[r.Intn(len(rawPool))])
@@ -682,12 +682,17 @@ func genJSONBig(r *Rng, size int, allowBad bool) string {
 	case 0:
 		b.WriteString(`"` + longLine(r, size) + `"`)
 	case 1:
+		// many elements (bounded: the model's stack is the OCaml stack), the rest of the size as one string
 		b.WriteString("[")
-		for i := 0; b.Len() < size; i++ {
+		start := b.Len()
+		for i := 0; b.Len()-start < size && i < 3000; i++ {
 			if i > 0 {
 				b.WriteString(",")
 			}
 			b.WriteString(numPool[r.Intn(len(numPool))])
+		}
+		if rest := size - (b.Len() - start); rest > 0 {
+			b.WriteString(`,"` + longLine(r, rest) + `"`)
 		}
 		b.WriteString("]")
 	case 2:
@@ -752,14 +757,23 @@ type modeSpec struct {
 
 func inputsChecks(c *Ctx, dir string, round int, big int) {
 	r := c.Rng
+	// the largest sizes: one big source per run (-Rs concatenates the texts; the model's stack is the OCaml stack)
+	nbig := 0
+	useBig := func() bool {
+		if big > 0 && (big < 32768 || nbig == 0) && r.Chance(2, 3) {
+			nbig++
+			return true
+		}
+		return false
+	}
 	mkRaw := func() string {
-		if big > 0 && r.Chance(2, 3) {
+		if useBig() {
 			return genRawBig(r, big)
 		}
 		return genRaw(r)
 	}
 	mkJSON := func() string {
-		if big > 0 && r.Chance(2, 3) {
+		if useBig() {
 			return genJSONBig(r, big, true)
 		}
 		return genJSONText(r, true)
@@ -792,6 +806,7 @@ func inputsChecks(c *Ctx, dir string, round int, big int) {
 	defer func() { curFiles = nil }()
 	for _, raw := range []bool{false, true} {
 		srcs = srcs[:0]
+		nbig = 0
 		for k := range files {
 			delete(files, k)
 		}
@@ -1253,8 +1268,8 @@ func runC16(c *Ctx) {
 			if i%24 == 0 && i/24 < len(quickBig) { // spread over the run (the model is run in contiguous shards)
 				big = quickBig[i/24]
 			}
-		} else if i%40 == 0 {
-			big = thoroughBig[(i/40)%len(thoroughBig)]
+		} else if i%600 == 0 || (i < 240 && i%24 == 0) { // every size once, the quick sizes twice (bounded case volume)
+			big = thoroughBig[(i/24+i/600)%len(thoroughBig)]
 		}
 		inputsChecks(c, dir, i, big)
 		if big > 0 {
